@@ -196,10 +196,45 @@ func checkC04(c *Ctx) {
 		})
 		var rd *ssa.Call
 		eachInstr(h, func(in ssa.Instruction) {
-			if call, ok := in.(*ssa.Call); ok && call.Call.IsInvoke() && call.Call.Method.Name() == "Read" && pathOf(call.Call.Value) == "clientConn" {
+			if call, ok := in.(*ssa.Call); ok && call.Call.IsInvoke() && call.Call.Method.Name() == "Read" && len(h.Params) == 4 && pathOf(call.Call.Value) == pname(h.Params[2]) {
 				rd = call
 			}
 		})
+		// the classification read takes whatever has arrived: a read with a per-call minimum (io.ReadFull,
+		// io.ReadAtLeast, a bufio reader) blocks on a flight whose remaining tail is shorter than that minimum
+		connP := ""
+		if len(h.Params) == 4 {
+			connP = pname(h.Params[2])
+		}
+		eachInstr(h, func(in ssa.Instruction) {
+			call, ok := in.(*ssa.Call)
+			if !ok {
+				return
+			}
+			n := calleeName(&call.Call)
+			switch n {
+			case "io.ReadFull", "io.ReadAtLeast", "io.ReadAll", "bufio.NewReader", "bufio.NewReaderSize", "io.CopyN":
+				for _, a := range call.Call.Args {
+					if pathOf(a) == connP {
+						r.Bad("C04.1", "handleNewTCPConn: classification read through "+shortName(n), in.Pos(), fnName(h),
+							"the client connection is read through "+shortName(n)+", which blocks until a minimum number of bytes has arrived in THIS call: a first flight whose last segment is shorter than that minimum is never offered to the transports (the connection sits until the deadline), so recognition depends on how the flight was segmented")
+					}
+				}
+			}
+		})
+		// the candidate set a connection prunes is its own: GetWrappingTransports builds a fresh map per call
+		if gw := c.fn("C04.1", "pkg/station/lib", "RegistrationManager", "GetWrappingTransports"); gw != nil {
+			eachInstr(gw, func(in ssa.Instruction) {
+				ret, ok := in.(*ssa.Return)
+				if !ok || len(ret.Results) != 1 || in.Block().Comment == "recover" {
+					return
+				}
+				rv := returnedValue(ret, 0, nil)
+				_, fresh := rv.(*ssa.MakeMap)
+				r.Check(fresh, "C04.1", "GetWrappingTransports: every connection gets its own candidate map", ret.Pos(), fnName(gw), "make(map) in the same call",
+					"GetWrappingTransports returns "+firstN(pathOf(rv), 50)+", a map shared between connections; the connection handler deletes the transports it has ruled out from that map, so a transport ruled out for one connection (any probe) is never offered a later client's flight")
+			})
+		}
 		if wrap == nil || rd == nil {
 			r.Unk("C04.1", "handleNewTCPConn: Read / WrapConnection", h.Pos(), fnName(h), "not found")
 		} else {
